@@ -9,7 +9,6 @@ claim("C22",
       "DESIGN.md §5 C22")
 na("C03", "Both directions pass through the CTE decoder = ANTLR ATN interpreter over symbolic characters (about 40 kLoC generated tables + runtime); token shapes are grammar data, not Go code the engine can execute.")
 na("C17", "Goroutine interleavings over sync.Map, WaitGroup and atomics: the engine has no concurrency semantics.")
-na("C20", "Pointer-graph discovery uses reflect.Value.Pointer, go-duplicates (unsafe) and deferred setter closures over reflected fields; graph isomorphism over a symbolic heap is outside the value model.")
 claim("C10",
       "Every event history up to the bound (structural alphabet forked by the engine, ids/integers/version as solver variables) is run through the real rules validator and a reference automaton written from the statement; after every event z3 shows the two verdicts agree.",
       "Reference automaton = DESIGN.md A.2 (harness/C10). Bounds: history length 5 quick / 6 thorough. Markers/references (C13), arrays (C11), comments/padding not generated.",
@@ -26,6 +25,10 @@ claim("C06",
       "Rules-valid event streams from templates with symbolic payloads (integers in all three event forms over all 64-bit values, floats, strings, typed arrays whole and chunked, nested lists/maps, nodes, edges, record types + records, markers with backward/forward references to scalars, lists, maps and as map keys, comments and padding) are unmarshaled with no template by the real builder Session/BuilderEventReceiver (interface, list, map, record, marker builders, reference filler) and marshaled again by the real iterator Session; z3 shows unmarshal and marshal never fail and the two value trees are equal (integers by value, maps unordered, records as maps, references replaced by targets, comments dropped).",
       "Streams are delivered as events after the real rules validator accepted them; the byte decoders in front are covered by C01/C07/C09. reflect/sync.Map/WaitGroup are the engine's emulation / sequential model. Big numbers, times, media, custom types, resource ids, NaN, deeper nesting and arbitrary event histories are not generated. Open finding: documents containing an edge cannot be unmarshaled (KF-C06-edge-end-rejected).",
       "DESIGN.md §5 C06")
+claim("C20",
+      "Pointer graphs with recursion support on: 3 struct nodes with two pointer fields each (all 4^6 topologies: nil, self loops, cycles, shared targets), 3 nodes with slices of 0..2 pointers, 2..3 nodes with map[string]*node fields; payloads are solver variables. The real iterator Session (go-duplicates pointer scan, marker/reference emission) marshals the graph, the real rules validate it, the real builder Session (pointer/struct/slice/map builders, reference filler) unmarshals it into the same type, also through the real CBE encoder and decoder; every path must return (step budget = termination) and a simultaneous walk shows the result is isomorphic: nil, shared and cyclic pointers in the same places, all payloads equal.",
+      "Topologies are chosen by engine-enumerated selectors (the solver decides payloads and path feasibility). reflect (Value.Pointer = identity of the engine's heap cell), sync.Map, WaitGroup are the engine's emulation / sequential model. CTE in between (ANTLR), interface-typed nodes and graphs larger than 3 nodes are outside the bound.",
+      "DESIGN.md §5 C20")
 
 # everything else that is planned but has no check yet
 PLANNED = ["C%02d" % k for k in range(1, 30)]
